@@ -29,3 +29,38 @@ func TestVerifDemo_C27(t *testing.T) {
 		t.Fail()
 	}
 }
+
+// C26 demonstration: a symbolic link in a parent directory of the requested
+// path leads upload, listing and delete outside the allowed directory.
+func TestVerifDemo_C26(t *testing.T) {
+	root := t.TempDir()
+	allowed := filepath.Join(root, "a")
+	outside := filepath.Join(root, "o")
+	os.MkdirAll(allowed, 0o755)
+	os.MkdirAll(outside, 0o755)
+	os.WriteFile(filepath.Join(outside, "s"), []byte("secret"), 0o644)
+	os.Symlink(outside, filepath.Join(allowed, "l"))
+	h := NewStreamHandler(StreamConfig{Enabled: true, AllowedPaths: []string{allowed}})
+	bad := 0
+	up := filepath.Join(allowed, "l", "new")
+	if h.ValidateUploadMetadata(&TransferMetadata{Path: up, Size: 1}) == nil {
+		h.WriteUploadedFile(up, bytes.NewReader([]byte("X")), 0o644, false, false)
+		if _, err := os.Lstat(filepath.Join(outside, "new")); err == nil {
+			t.Logf("upload to %s created %s", up, filepath.Join(outside, "new"))
+			bad++
+		}
+	}
+	if resp := h.Browse(&BrowseRequest{Action: "list", Path: filepath.Join(allowed, "l")}); resp.Error == "" {
+		t.Logf("list of %s returned %d entries of %s", filepath.Join(allowed, "l"), len(resp.Entries), outside)
+		bad++
+	}
+	h.Browse(&BrowseRequest{Action: "delete", Path: filepath.Join(allowed, "l", "s")})
+	if _, err := os.Lstat(filepath.Join(outside, "s")); err != nil {
+		t.Logf("delete of %s removed %s", filepath.Join(allowed, "l", "s"), filepath.Join(outside, "s"))
+		bad++
+	}
+	if bad > 0 {
+		t.Logf("VERIF-DEMO-REPRODUCED C26: %d operations left the allowed directory", bad)
+		t.Fail()
+	}
+}
